@@ -629,6 +629,18 @@ def make_envs(steps, cap=40):
     return envs
 
 
+def make_envs_from_texts(texts, cap=40):
+    """Environment grid for hand-written histories (no ASTs): scrape quoted literals."""
+    import re
+
+    steps = []
+    for text in texts:
+        for m in re.finditer(r"""(?:(\w+)\s*(?:[<>=!~]=?|in|not\s+in)\s*["']([^"']*)["'])|(?:["']([^"']*)["']\s*(?:[<>=!~]=?|in|not\s+in)\s*(\w+))""", text):
+            name, value = (m.group(1), m.group(2)) if m.group(1) else (m.group(4), m.group(3))
+            steps.append({"ast": atom(name, "==", value)})
+    return make_envs(steps, cap)
+
+
 def run_seed(verif_seed, shard, run):
     """One integer decides everything about a run."""
     import hashlib
